@@ -1066,12 +1066,20 @@ class Sim:
             return j.finished
         return j.finished or any(y[0] in ('lost', 'term') for y in j.yielded)
 
-    def p_scan(self):
+    def p_scan(self, interleave=False):
+        """one pass of the time-limit scanner.  interleave=True: between the
+        scanner's `job.ready()` check and its `_set` of the failure, the
+        result handler processes one pending message - an interleaving two
+        pool threads (threads=True) can produce; injected with a
+        sys.monitoring LINE failpoint scoped to on_hard_timeout."""
         self.begin('scan')
         pool = self.pool
         th = pool._timeout_handler
         if th is None:
             return
+        hook = None
+        if interleave and self.sent_fifo:
+            hook = self._install_interleave()
         now = self.clock.t
         allowed, must_tle, must_soft = set(), [], []
         for j in self.jobs.values():
@@ -1096,6 +1104,13 @@ class Sim:
         except Exception as exc:
             self.viol({'C05', 'C06'}, 'timeout_scan_raised', exc=repr(exc),
                       tb=traceback.format_exc()[-1500:])
+        finally:
+            if hook is not None:
+                hook()
+        if interleave:
+            # a result processed inside the scan may legitimately have won
+            allowed |= {j.jid for j in self.jobs.values() if j.obs_step == self.step_no}
+            must_tle = [j for j in must_tle if j.obs is None or j.obs[0] == 'tle']
         self.log('p_scan', 'must_tle=%s' % [j.jid for j in must_tle],
                  'must_soft=%s' % [j.jid for j in must_soft])
         self.stat('scans')
@@ -1126,6 +1141,38 @@ class Sim:
                 self.viol({'C06'}, 'soft_timeout_callback_missing_or_wrong',
                           job=j.jid, calls=j.cb['timeout'], soft=j.soft)
         self.check_sem()
+
+    def _install_interleave(self):
+        import sys
+        import inspect
+        M = sys.monitoring
+        code = self.bp.TimeoutHandler.on_hard_timeout.__code__
+        try:
+            src, first = inspect.getsourcelines(self.bp.TimeoutHandler.on_hard_timeout)
+            line = next(first + i for i, ln in enumerate(src) if 'raise TimeLimitExceeded' in ln)
+        except (OSError, StopIteration):
+            self.rec.missing('on_hard_timeout source line for the interleaving failpoint')
+            return None
+        TOOL = 4
+        fired = [False]
+        sim = self
+
+        def on_line(c, ln):
+            if ln == line and not fired[0] and sim.sent_fifo:
+                fired[0] = True
+                step_kind, step_no = sim.cur_step_kind, sim.step_no
+                sim.stat('interleaved_result_inside_scan')
+                sim.p_result()
+                sim.cur_step_kind = step_kind
+        M.use_tool_id(TOOL, 'vmon-sim')
+        M.register_callback(TOOL, M.events.LINE, on_line)
+        M.set_local_events(TOOL, code, M.events.LINE)
+
+        def remove():
+            M.set_local_events(TOOL, code, 0)
+            M.register_callback(TOOL, M.events.LINE, None)
+            M.free_tool_id(TOOL)
+        return remove
 
     def p_advance(self, dt):
         self.begin('advance')
@@ -1294,7 +1341,7 @@ class Sim:
         elif k == 'supervise':
             self.p_supervise()
         elif k == 'scan':
-            self.p_scan()
+            self.p_scan(interleave=self.rng.random() < self.prof.get('p_interleave', 0.3))
         elif k == 'advance':
             self.p_advance(rng.choice(self.prof.get('dts', [0.1, 0.4, 0.8, 1.0, 1.5, 3.0, 10.5])))
         elif k == 'dup':
